@@ -43,7 +43,7 @@ fn range(u: &mut Unstructured) -> RangeSpec {
 fn script(u: &mut Unstructured, wide: bool) -> Vec<Step> {
     let n = u.int_in_range(0usize..=8).unwrap_or(0);
     (0..n)
-        .map(|_| match u.int_in_range(0u8..=if wide { 19 } else { 4 }).unwrap_or(0) {
+        .map(|_| match u.int_in_range(0u8..=if wide { 20 } else { 4 }).unwrap_or(0) {
             0 | 1 => Step::Next,
             2 | 3 => Step::NextBack,
             4 => Step::Dbg,
@@ -60,6 +60,7 @@ fn script(u: &mut Unstructured, wide: bool) -> Vec<Step> {
             15 => Step::Search,
             16 => Step::FindMid,
             17 => Step::RFindMid,
+            20 => Step::Via(u.int_in_range(0u8..=7).unwrap_or(0)),
             18 => Step::PanicSearch(u.int_in_range(0u16..=5).unwrap_or(0), u.arbitrary().unwrap_or(false)),
             _ => Step::RevCollect,
         })
